@@ -301,14 +301,17 @@ func checkValidityTables(c *fw.Ctx) {
 	rule := "2 validity"
 	if fn := mustFunc(c, rule, "(PublicKeyLookupResult).WasValidAt"); fn != nil {
 		// tests of other fields of the key record are independent inputs: the rule must hold whatever they say
-		ip := &interp{bools: map[string]string{"(*&recv.ExpiredTS == 0)": "notExpired"}, free: func(atom string) bool {
+		ruleAtom := "dyn(param:signatureValidityCheck)(param:atTs,*&recv.ValidUntilTS)"
+		ip := &interp{bools: map[string]string{"(*&recv.ExpiredTS == 0)": "notExpired", ruleAtom: "ruleOK", "(param:atTs < *&recv.ExpiredTS)": "before"}, free: func(atom string) bool {
 			return strings.HasPrefix(atom, "(*&recv.") && (strings.HasSuffix(atom, " == 0)") || strings.HasSuffix(atom, " == nil)"))
 		}}
-		compareTable(c, rule, "expired keys: at < expired_ts; otherwise the signature validity rule on valid_until_ts", fn, 0, []tvar{{"notExpired", tf}}, ip, func(a asg) string {
+		// the answer is the version's rule for a key that has not expired, and "signed before the
+		// expiry" for one that has - whichever of the two the code happens to evaluate first
+		compareTable(c, rule, "expired keys: at < expired_ts; otherwise the signature validity rule on valid_until_ts", fn, 0, []tvar{{"notExpired", tf}, {"ruleOK", tf}, {"before", tf}}, ip, func(a asg) string {
 			if a["notExpired"] == "true" {
-				return "value:dyn(param:signatureValidityCheck)(param:atTs,*&recv.ValidUntilTS)"
+				return "value:" + a["ruleOK"]
 			}
-			return "value:(param:atTs < *&recv.ExpiredTS)"
+			return "value:" + a["before"]
 		}, nil)
 	}
 	if fn := mustFunc(c, rule, "StrictValiditySignatureCheck"); fn != nil {
